@@ -53,8 +53,9 @@ CONFIGS = [
     ("reclaim_retirefirst", "Reclaim", "MC_Reclaim_retirefirst.cfg", {"C03"}, "ReachableLive", "quick", []),
     # the red-black algorithms of node.rs transcribed (TreeBinOps / TreeBinRB): every insertion / removal sequence
     ("rb_full7", "MC_TreeBinRB", "MC_TreeBinRB_full.cfg", {"C06"}, "ok", "quick", []),
-    ("rb_view10", "MC_TreeBinRB", "MC_TreeBinRB_v10.cfg", {"C06"}, "ok", "quick", []),
-    ("rb_view12", "MC_TreeBinRB", "MC_TreeBinRB_v12.cfg", {"C06"}, "ok", "thorough", []),
+    ("rb_tree10", "MC_TreeBinRB", "MC_TreeBinRB_v10.cfg", {"C06"}, "ok", "quick", []),
+    ("rb_tree12", "MC_TreeBinRB", "MC_TreeBinRB_v12.cfg", {"C06"}, "ok", "quick", []),
+    ("rb_tree14", "MC_TreeBinRB", "MC_TreeBinRB_v14.cfg", {"C06"}, "ok", "thorough", []),
     ("rb_mutant", "MC_TreeBinRB", "MC_TreeBinRB_mutant.cfg", {"C06"}, "RBInvariants", "quick", []),
     ("treelock", "MC_TreeBinLock", "MC_TreeBinLock.cfg", {"C11", "C12", "C01"}, "ok", "quick", ["ContPark", "FindUnpark", "SpuriousWake"]),
     ("treelock_live", "MC_TreeBinLock", "MC_TreeBinLock_live.cfg", {"C11"}, "ok", "quick", []),
